@@ -505,6 +505,7 @@ func (in *Interp) RunConfig(cfg *Config, maxPaths int64, deadline time.Time) *Re
 			copy(args, rs.argVals)
 			in.syncDepth = 0
 			in.syncMaps = nil
+			in.syncPools = nil
 			rs.syncWrites = 0
 			in.callFunction(fn, args, nil)
 			end = pathEnd{kind: endDone}
